@@ -7,6 +7,7 @@ import (
 	"fmt"
 	"go/types"
 	"sort"
+	"strings"
 
 	"golang.org/x/tools/go/ssa"
 )
@@ -103,6 +104,10 @@ func (fr *frame) writeSets(l *Loop) (cells map[*ssa.Alloc]bool, heaps map[string
 			case *ssa.Next:
 				heaps["$iter"] = true
 			case ssa.CallInstruction:
+				if _, isGo := in.(*ssa.Go); isGo {
+					heaps["G_forked"] = true
+					vc.regHeap("G_forked", "(Array Int Int)")
+				}
 				ws, wall, wal := fr.callWrites(x.Common())
 				if wall {
 					all = true
@@ -205,7 +210,7 @@ func (fr *frame) loopHead(l *Loop, entry *state, phiIn map[*ssa.Phi]T) *state {
 			st.heap[h] = n
 			// automatic frame: memory that existed at function entry and is not in the modifies
 			// clause keeps its contents (guaranteed by the frame.* obligations of this unit).
-			if len(h) > 5 && h[:5] == "Glob_" {
+			if strings.HasPrefix(h, "Glob_") || strings.HasPrefix(h, "G_") || strings.HasPrefix(h, "Seen_") {
 				continue
 			}
 			cond := fmt.Sprintf("(and (<= 0 r) (< r %s)", fr.next0)
